@@ -1,0 +1,471 @@
+//! Verification shim, compiled only with `--cfg kanal_verif`.
+//!
+//! Every source file of the crate contains the single line
+//! `#[cfg(kanal_verif)] use crate::verif::{core, std};` which shadows the
+//! `core` and `std` crates with the modules below.  They re-export the real
+//! crates and replace the handful of primitives the channel protocol is built
+//! from (atomics, fences, `UnsafeCell`, raw pointer moves, park/unpark,
+//! yielding, sleeping, the clock and the reported parallelism) with wrappers
+//! that report each operation to a callback installed by an external test
+//! harness *before* it takes effect (a scheduling point) and report its result
+//! afterwards.  With no callback installed, or on a thread the harness does not
+//! control, every wrapper is a plain pass-through to the real primitive.
+#![allow(missing_docs, missing_debug_implementations, dead_code)]
+
+use ::core::sync::atomic::{AtomicUsize as RawUsize, Ordering as RawOrdering};
+
+/// `hook(kind, addr, a, b) -> r`; `PASS` means "not controlled, do the real thing".
+pub type HookFn = fn(kind: u32, addr: usize, a: u64, b: u64) -> u64;
+pub const PASS: u64 = u64::MAX;
+
+static HOOK: RawUsize = RawUsize::new(0);
+
+pub fn set_hook(f: Option<HookFn>) {
+    HOOK.store(f.map(|f| f as usize).unwrap_or(0), RawOrdering::SeqCst)
+}
+
+#[inline]
+pub fn hook(kind: u32, addr: usize, a: u64, b: u64) -> u64 {
+    let h = HOOK.load(RawOrdering::Relaxed);
+    if h == 0 {
+        return PASS;
+    }
+    // Safety: only `set_hook` writes HOOK, and only with a valid `HookFn`
+    let f: HookFn = unsafe { ::core::mem::transmute::<usize, HookFn>(h) };
+    f(kind, addr, a, b)
+}
+
+// pre-events: reported before the operation takes effect (scheduling points)
+pub const A8_LOAD: u32 = 1; // a = ordering
+pub const A8_STORE: u32 = 2; // a = value, b = ordering
+pub const A8_CAS: u32 = 3; // a = current << 8 | new, b = success << 8 | failure
+pub const A8_RMW: u32 = 4; // a = operand, b = ordering
+pub const AB_LOAD: u32 = 5;
+pub const AB_STORE: u32 = 6;
+pub const AB_CAS: u32 = 7;
+pub const AB_RMW: u32 = 8;
+pub const FENCE: u32 = 9; // a = ordering
+pub const CELL_GET: u32 = 10; // UnsafeCell::get, addr = cell
+pub const PTR_READ: u32 = 11; // a = size
+pub const PTR_WRITE: u32 = 12; // a = size
+pub const PTR_COPY: u32 = 13; // addr = dst, a = src, b = size
+pub const PARK: u32 = 14;
+pub const UNPARK: u32 = 15; // a = thread id
+pub const YIELD: u32 = 16; // a = 0 spin_loop, 1 yield_now, 2 sleep; b = nanos
+pub const THREAD_CURRENT: u32 = 17; // returns the harness thread id
+pub const NOW: u32 = 18; // returns virtual nanoseconds
+pub const PARALLELISM: u32 = 19; // returns the reported parallelism
+pub const OBJ_DEAD: u32 = 20; // a shim AtomicU8 is dropped, addr = object
+pub const OWNER_SLOT: u32 = 21; // owner touches its own MaybeUninit slot, a = 0 read / 1 drop
+pub const THREAD_CLONE: u32 = 22; // a = thread id
+pub const NOTE: u32 = 23; // a = note code (FutureState transitions etc.), b = detail
+pub const USIZE_LOAD: u32 = 24; // returns an override or PASS
+// post-events: results, never scheduling points
+pub const RESULT: u32 = 100; // a = result of the preceding pre-event of this thread, b = extra
+
+#[inline]
+fn ord(o: ::core::sync::atomic::Ordering) -> u64 {
+    use ::core::sync::atomic::Ordering::*;
+    match o {
+        Relaxed => 0,
+        Release => 1,
+        Acquire => 2,
+        AcqRel => 3,
+        SeqCst => 4,
+        _ => 5,
+    }
+}
+
+/// Explicit event for the owner's access to its own `MaybeUninit` slot (these
+/// accesses go through by-value `assume_init` and are invisible to the shim).
+#[inline]
+pub fn owner_slot<T>(p: *const T, how: u64) {
+    hook(OWNER_SLOT, p as usize, how, ::core::mem::size_of::<T>() as u64);
+}
+
+#[inline]
+pub fn note(code: u64, detail: u64) {
+    hook(NOTE, 0, code, detail);
+}
+
+pub mod core {
+    pub use ::core::*;
+    pub mod sync {
+        pub use ::core::sync::*;
+        pub mod atomic {
+            use crate::verif::*;
+            pub use ::core::sync::atomic::*;
+
+            pub fn fence(o: Ordering) {
+                hook(FENCE, 0, ord(o), 0);
+                ::core::sync::atomic::fence(o)
+            }
+
+            macro_rules! shim_atomic {
+                ($name:ident, $raw:ty, $prim:ty, $load:ident, $store:ident, $cas:ident, $rmw:ident) => {
+                    #[repr(transparent)]
+                    pub struct $name($raw);
+                    impl $name {
+                        pub const fn new(v: $prim) -> Self {
+                            Self(<$raw>::new(v))
+                        }
+                        #[inline]
+                        fn a(&self) -> usize {
+                            self as *const _ as usize
+                        }
+                        pub fn load(&self, o: Ordering) -> $prim {
+                            hook($load, self.a(), ord(o), 0);
+                            let v = self.0.load(o);
+                            hook(RESULT, self.a(), v as u64, 0);
+                            v
+                        }
+                        pub fn store(&self, v: $prim, o: Ordering) {
+                            hook($store, self.a(), v as u64, ord(o));
+                            self.0.store(v, o)
+                        }
+                        pub fn compare_exchange(
+                            &self,
+                            c: $prim,
+                            n: $prim,
+                            s: Ordering,
+                            f: Ordering,
+                        ) -> Result<$prim, $prim> {
+                            hook(
+                                $cas,
+                                self.a(),
+                                (c as u64) << 8 | n as u64,
+                                ord(s) << 8 | ord(f),
+                            );
+                            let r = self.0.compare_exchange(c, n, s, f);
+                            match r {
+                                Ok(p) => hook(RESULT, self.a(), 1, p as u64),
+                                Err(p) => hook(RESULT, self.a(), 0, p as u64),
+                            };
+                            r
+                        }
+                        pub fn compare_exchange_weak(
+                            &self,
+                            c: $prim,
+                            n: $prim,
+                            s: Ordering,
+                            f: Ordering,
+                        ) -> Result<$prim, $prim> {
+                            self.compare_exchange(c, n, s, f)
+                        }
+                        pub fn swap(&self, v: $prim, o: Ordering) -> $prim {
+                            hook($rmw, self.a(), v as u64, ord(o) | 0x100);
+                            let r = self.0.swap(v, o);
+                            hook(RESULT, self.a(), r as u64, self.0.load(Ordering::Relaxed) as u64);
+                            r
+                        }
+                        pub fn get_mut(&mut self) -> &mut $prim {
+                            self.0.get_mut()
+                        }
+                        pub fn into_inner(self) -> $prim {
+                            self.0.load(Ordering::Relaxed)
+                        }
+                    }
+                };
+            }
+            macro_rules! shim_rmw {
+                ($name:ident, $prim:ty, $rmw:ident, $($f:ident = $code:expr),*) => {
+                    impl $name { $(
+                        pub fn $f(&self, v: $prim, o: Ordering) -> $prim {
+                            hook($rmw, self.a(), v as u64, ord(o) | $code);
+                            let r = self.0.$f(v, o);
+                            hook(RESULT, self.a(), r as u64, self.0.load(Ordering::Relaxed) as u64);
+                            r
+                        }
+                    )* }
+                };
+            }
+            shim_atomic!(AtomicU8, ::core::sync::atomic::AtomicU8, u8, A8_LOAD, A8_STORE, A8_CAS, A8_RMW);
+            shim_rmw!(AtomicU8, u8, A8_RMW, fetch_add = 0x200, fetch_sub = 0x300, fetch_and = 0x400,
+                      fetch_or = 0x500, fetch_xor = 0x600, fetch_max = 0x700, fetch_min = 0x800);
+            shim_atomic!(AtomicBool, ::core::sync::atomic::AtomicBool, bool, AB_LOAD, AB_STORE, AB_CAS, AB_RMW);
+            shim_rmw!(AtomicBool, bool, AB_RMW, fetch_and = 0x400, fetch_or = 0x500, fetch_xor = 0x600);
+
+            impl Drop for AtomicU8 {
+                fn drop(&mut self) {
+                    hook(OBJ_DEAD, self.a(), 0, 0);
+                }
+            }
+            impl Default for AtomicU8 {
+                fn default() -> Self {
+                    Self::new(0)
+                }
+            }
+            impl Default for AtomicBool {
+                fn default() -> Self {
+                    Self::new(false)
+                }
+            }
+
+            /// `AtomicUsize` is only used to cache the reported parallelism; a
+            /// harness may override what a load returns.
+            #[repr(transparent)]
+            pub struct AtomicUsize(::core::sync::atomic::AtomicUsize);
+            impl AtomicUsize {
+                pub const fn new(v: usize) -> Self {
+                    Self(::core::sync::atomic::AtomicUsize::new(v))
+                }
+                pub fn load(&self, o: Ordering) -> usize {
+                    let r = hook(USIZE_LOAD, self as *const _ as usize, ord(o), 0);
+                    if r != PASS {
+                        return r as usize;
+                    }
+                    self.0.load(o)
+                }
+                pub fn store(&self, v: usize, o: Ordering) {
+                    self.0.store(v, o)
+                }
+                pub fn fetch_add(&self, v: usize, o: Ordering) -> usize {
+                    self.0.fetch_add(v, o)
+                }
+                pub fn fetch_sub(&self, v: usize, o: Ordering) -> usize {
+                    self.0.fetch_sub(v, o)
+                }
+                pub fn swap(&self, v: usize, o: Ordering) -> usize {
+                    self.0.swap(v, o)
+                }
+                pub fn compare_exchange(
+                    &self,
+                    c: usize,
+                    n: usize,
+                    s: Ordering,
+                    f: Ordering,
+                ) -> Result<usize, usize> {
+                    self.0.compare_exchange(c, n, s, f)
+                }
+            }
+        }
+    }
+    pub mod cell {
+        pub use ::core::cell::*;
+        /// `UnsafeCell` whose `get` is reported (the access kind is unknown to
+        /// the shim; a harness treats it as a possible write).
+        #[repr(transparent)]
+        pub struct UnsafeCell<T: ?Sized>(::core::cell::UnsafeCell<T>);
+        impl<T> UnsafeCell<T> {
+            pub const fn new(v: T) -> Self {
+                Self(::core::cell::UnsafeCell::new(v))
+            }
+            pub fn into_inner(self) -> T {
+                self.0.into_inner()
+            }
+        }
+        impl<T: ?Sized> UnsafeCell<T> {
+            #[inline]
+            pub fn get(&self) -> *mut T {
+                crate::verif::hook(crate::verif::CELL_GET, self as *const _ as *const u8 as usize, 0, 0);
+                self.0.get()
+            }
+            pub fn get_mut(&mut self) -> &mut T {
+                self.0.get_mut()
+            }
+        }
+        impl<T> From<T> for UnsafeCell<T> {
+            fn from(v: T) -> Self {
+                Self::new(v)
+            }
+        }
+        impl<T: Default> Default for UnsafeCell<T> {
+            fn default() -> Self {
+                Self::new(T::default())
+            }
+        }
+    }
+    pub mod ptr {
+        use crate::verif::*;
+        pub use ::core::ptr::*;
+        #[inline]
+        pub unsafe fn read<T>(src: *const T) -> T {
+            hook(PTR_READ, src as usize, ::core::mem::size_of::<T>() as u64, 0);
+            ::core::ptr::read(src)
+        }
+        #[inline]
+        pub unsafe fn write<T>(dst: *mut T, v: T) {
+            hook(PTR_WRITE, dst as usize, ::core::mem::size_of::<T>() as u64, 0);
+            ::core::ptr::write(dst, v)
+        }
+        #[inline]
+        pub unsafe fn copy_nonoverlapping<T>(src: *const T, dst: *mut T, n: usize) {
+            hook(
+                PTR_COPY,
+                dst as usize,
+                src as u64,
+                (n * ::core::mem::size_of::<T>()) as u64,
+            );
+            ::core::ptr::copy_nonoverlapping(src, dst, n)
+        }
+    }
+    pub mod hint {
+        pub use ::core::hint::*;
+        #[inline]
+        pub fn spin_loop() {
+            if crate::verif::hook(crate::verif::YIELD, 0, 0, 0) == crate::verif::PASS {
+                ::core::hint::spin_loop()
+            }
+        }
+    }
+}
+
+pub mod std {
+    pub use super::core::{cell, hint, ptr};
+    pub use ::std::*;
+    pub mod sync {
+        pub use crate::verif::core::sync::atomic;
+        pub use ::std::sync::*;
+    }
+    pub mod time {
+        use crate::verif::*;
+        pub use ::std::time::*;
+        /// `Instant` that a harness can drive with a virtual clock.
+        #[derive(Clone, Copy, PartialEq, Eq, PartialOrd, Ord, Debug, Hash)]
+        pub struct Instant(Duration);
+        fn base() -> ::std::time::Instant {
+            static BASE: ::std::sync::OnceLock<::std::time::Instant> = ::std::sync::OnceLock::new();
+            *BASE.get_or_init(::std::time::Instant::now)
+        }
+        impl Instant {
+            pub fn now() -> Instant {
+                let r = hook(NOW, 0, 0, 0);
+                if r != PASS {
+                    return Instant(Duration::from_nanos(r));
+                }
+                Instant(base().elapsed())
+            }
+            pub fn checked_add(&self, d: Duration) -> Option<Instant> {
+                self.0.checked_add(d).map(Instant)
+            }
+            pub fn checked_sub(&self, d: Duration) -> Option<Instant> {
+                self.0.checked_sub(d).map(Instant)
+            }
+            pub fn duration_since(&self, earlier: Instant) -> Duration {
+                self.0.saturating_sub(earlier.0)
+            }
+            pub fn saturating_duration_since(&self, earlier: Instant) -> Duration {
+                self.0.saturating_sub(earlier.0)
+            }
+            pub fn checked_duration_since(&self, earlier: Instant) -> Option<Duration> {
+                self.0.checked_sub(earlier.0)
+            }
+            pub fn elapsed(&self) -> Duration {
+                Instant::now().0.saturating_sub(self.0)
+            }
+        }
+        impl ::core::ops::Add<Duration> for Instant {
+            type Output = Instant;
+            fn add(self, d: Duration) -> Instant {
+                Instant(self.0 + d)
+            }
+        }
+        impl ::core::ops::Sub<Duration> for Instant {
+            type Output = Instant;
+            fn sub(self, d: Duration) -> Instant {
+                Instant(self.0.saturating_sub(d))
+            }
+        }
+        impl ::core::ops::Sub<Instant> for Instant {
+            type Output = Duration;
+            fn sub(self, o: Instant) -> Duration {
+                self.0.saturating_sub(o.0)
+            }
+        }
+    }
+    pub mod thread {
+        use crate::verif::*;
+        pub use ::std::thread::*;
+        /// Thread handle: a harness thread id, or a real handle when uncontrolled.
+        #[derive(Debug)]
+        pub struct Thread {
+            id: u64,
+            real: Option<::std::thread::Thread>,
+        }
+        impl Clone for Thread {
+            fn clone(&self) -> Self {
+                hook(THREAD_CLONE, 0, self.id, 0);
+                Thread {
+                    id: self.id,
+                    real: self.real.clone(),
+                }
+            }
+        }
+        impl Thread {
+            pub fn unpark(&self) {
+                match &self.real {
+                    Some(t) => t.unpark(),
+                    None => {
+                        hook(UNPARK, 0, self.id, 0);
+                    }
+                }
+            }
+        }
+        pub fn current() -> Thread {
+            let id = hook(THREAD_CURRENT, 0, 0, 0);
+            Thread {
+                id,
+                real: if id == PASS {
+                    Some(::std::thread::current())
+                } else {
+                    None
+                },
+            }
+        }
+        pub fn park() {
+            if hook(PARK, 0, 0, 0) == PASS {
+                ::std::thread::park()
+            }
+        }
+        pub fn yield_now() {
+            if hook(YIELD, 0, 1, 0) == PASS {
+                ::std::thread::yield_now()
+            }
+        }
+        pub fn sleep(d: ::std::time::Duration) {
+            if hook(YIELD, 0, 2, d.as_nanos() as u64) == PASS {
+                ::std::thread::sleep(d)
+            }
+        }
+        pub fn available_parallelism() -> ::std::io::Result<::core::num::NonZeroUsize> {
+            let r = hook(PARALLELISM, 0, 0, 0);
+            if r != PASS {
+                return Ok(::core::num::NonZeroUsize::new(r as usize).unwrap());
+            }
+            ::std::thread::available_parallelism()
+        }
+    }
+}
+
+/// Unlocked snapshot of the lock-protected channel state.  Only meaningful
+/// while every thread that can touch the channel is stopped at a hook point.
+#[derive(Debug, Clone, Default)]
+pub struct Peek {
+    pub queue: Vec<u64>,
+    pub wait_list: Vec<usize>,
+    pub recv_blocking: bool,
+    pub capacity: usize,
+    pub send_count: u32,
+    pub recv_count: u32,
+}
+
+#[cfg(not(feature = "std-mutex"))]
+pub(crate) fn peek_internal<T>(
+    internal: &crate::internal::Internal<T>,
+    mut id: impl FnMut(&T) -> u64,
+) -> Peek {
+    // Safety: see `Peek`; no thread is running inside a critical section body
+    let i = unsafe { &*internal.data_ptr() };
+    Peek {
+        queue: i.queue.iter().map(&mut id).collect(),
+        wait_list: i.wait_list.iter().map(|t| t.verif_addr()).collect(),
+        recv_blocking: i.recv_blocking,
+        capacity: i.capacity,
+        send_count: i.send_count,
+        recv_count: i.recv_count,
+    }
+}
+
+/// The raw spin lock, exported for lock-level conformance checks.
+#[cfg(not(feature = "std-mutex"))]
+pub use crate::mutex::RawMutexLock;
